@@ -1,7 +1,7 @@
 (* C07 — limit errors only when the limit is really exceeded; the stack bound.
    Statements only; proofs in Proofs/VmLimits.v.  They hold for EVERY program (compiled or not),
    text, start offset, option flags and amount of fuel. *)
-From FR Require Import Base State Vm VmLimits.
+From FR Require Import Base State Utf8 Utf8Facts Ast Analyze Sem Vm Compile Api VmLimits CompileCorrect Terminates Parse ParseInv FromPattern.
 From Coq Require Import NArith.
 
 (* with backtrack limit L a run returns BacktrackLimitExceeded or exactly the unlimited run *)
@@ -56,3 +56,64 @@ Print Assumptions C07_limit_prefix.
 Print Assumptions C07_limit_enough.
 Print Assumptions C07_limit_fires_only_if.
 Print Assumptions C07_stack_bound.
+
+(* searches terminate: for every compiled program of a pattern in scope (no conditional under an
+   atomic cut), every valid UTF-8 text, boundary offset, stack bound and backtrack limit there is a
+   step budget from which on the VM loop has always returned - with a match, no match,
+   StackOverflow or BacktrackLimitExceeded; it neither runs on nor reaches a panic site.  The
+   loop's fuel is the model's only addition to vm::run, so this is termination of the real loop. *)
+Theorem C07_vm_terminates : forall cs : list (list nat), valid_chars cs ->
+  forall cx : ctx, c_text cx = concat cs -> (N.of_nat (length (concat cs)) < usize_max)%N ->
+  bnd cs (c_pos cx) ->
+  forall (bs : N -> bool) (e : expr) (p : prog),
+  compile bs (wrap e) = inr p -> oke true 0 (wrap e) ->
+  forall (max_st : nat) (lim : option N),
+  exists n, forall fuelv, n <= fuelv ->
+  match fst (vm_run cx p max_st lim fuelv) with
+  | RMatch _ | RNoMatch | RErrStack | RErrLimit => True
+  | _ => False
+  end.
+Proof. exact vm_terminates. Qed.
+Check C07_vm_terminates : forall cs : list (list nat), valid_chars cs ->
+  forall cx : ctx, c_text cx = concat cs -> (N.of_nat (length (concat cs)) < usize_max)%N ->
+  bnd cs (c_pos cx) ->
+  forall (bs : N -> bool) (e : expr) (p : prog),
+  compile bs (wrap e) = inr p -> oke true 0 (wrap e) ->
+  forall (max_st : nat) (lim : option N),
+  exists n, forall fuelv, n <= fuelv ->
+  match fst (vm_run cx p max_st lim fuelv) with
+  | RMatch _ | RNoMatch | RErrStack | RErrLimit => True
+  | _ => False
+  end.
+Print Assumptions C07_vm_terminates.
+
+(* the same from the pattern STRING: any valid UTF-8 pattern that parses and that Regex::new sends
+   to the VM, with no conditional under an atomic cut *)
+Theorem C07_terminates_from_pattern_string : forall (re : list nat), valid_text re ->
+  forall (e : expr) (st : pst), parse re = POk (e, st) ->
+  condok true e ->
+  forall (p : prog) (n : nat), regex_new (bs_of st) e = inr (RFancy p n) ->
+  forall cs : list (list nat), valid_chars cs ->
+  forall cx : ctx, c_text cx = concat cs -> (N.of_nat (length (concat cs)) < usize_max)%N ->
+  bnd cs (c_pos cx) ->
+  forall (max_st : nat) (lim : option N),
+  exists n0, forall fuelv, n0 <= fuelv ->
+  match fst (vm_run cx p max_st lim fuelv) with
+  | RMatch _ | RNoMatch | RErrStack | RErrLimit => True
+  | _ => False
+  end.
+Proof. exact pattern_vm_terminates. Qed.
+Check C07_terminates_from_pattern_string : forall (re : list nat), valid_text re ->
+  forall (e : expr) (st : pst), parse re = POk (e, st) ->
+  condok true e ->
+  forall (p : prog) (n : nat), regex_new (bs_of st) e = inr (RFancy p n) ->
+  forall cs : list (list nat), valid_chars cs ->
+  forall cx : ctx, c_text cx = concat cs -> (N.of_nat (length (concat cs)) < usize_max)%N ->
+  bnd cs (c_pos cx) ->
+  forall (max_st : nat) (lim : option N),
+  exists n0, forall fuelv, n0 <= fuelv ->
+  match fst (vm_run cx p max_st lim fuelv) with
+  | RMatch _ | RNoMatch | RErrStack | RErrLimit => True
+  | _ => False
+  end.
+Print Assumptions C07_terminates_from_pattern_string.
